@@ -18,7 +18,14 @@ Instrumentation, installed for the duration of a case and restored in ``finally`
   access made without holding ``_select_cond`` once the thread exists.
 
 The actor executes a generated program (<=15 ops over 3 virtual fds): add/remove reader/writer, make an
-fd readable/writable, clear it, run one pending loop callback, close.  Handlers consume the readiness
+fd readable/writable, clear it, remove+close an fd (``remove_close``: unregister, then close — the
+order the class documents), run one pending loop callback, close.  The scripted ``select`` starts at its
+own point ``select_enter``; if by then one of the fds it was handed has been closed it raises
+``OSError(EBADF)`` like the real one, which drives ``_run_select``'s EBADF recovery branch (re-poll the
+waker, report a waker-only result so the loop republishes the fd set).  One third of the programs are
+aimed at it: fd a enters a published set, is removed and closed — possibly before the selector thread
+has entered select — while another fd b is or becomes registered and ready and must still be
+dispatched.  Re-adding a closed number models descriptor reuse.  Handlers consume the readiness
 they are dispatched for (like reading the data) and optionally unregister themselves (one-shot).
 After the program a *fair completion* runs (pending callbacks and the selector thread alternate until
 nothing can move), then the shutdown (``close()``, the ``atexit`` hook, or the async-generator
@@ -40,7 +47,8 @@ returns and the thread is joined).  Waiting is bounded by a generous real-time c
 
 Limits (not covered): pre-emption inside C calls and between arbitrary bytecodes (atomic steps are the
 intervals between instrumented points — sound for the lock-protected state, which the Probe checks,
-and for thread-confined state); the EBADF recovery path of ``_run_select``; Windows/proactor-specific
+and for thread-confined state); closing a *registered* fd and the ``raise`` arm of the EBADF branch
+(waker not readable; unreachable when fds are removed before being closed); Windows/proactor-specific
 behaviour; schedules are generated, not exhaustively enumerated.
 
 Sensitivity (quick tier, seed 1, one mutant at a time on a scratch copy; all found by part ``sched``):
@@ -52,11 +60,15 @@ Sensitivity (quick tier, seed 1, one mutant at a time on a scratch copy; all fou
   * ``_handle_select`` not restarting the select .......................... caught (C40.lost_event)
   * ``_run_select`` calls ``_handle_select`` directly ...................... caught (C40.callback_off_loop_thread)
   * ``_run_select`` does not clear ``_select_args`` ........................ caught (crash.AssertionError@_start_select)
+  * EBADF recovery branch ``continue``s to the top of the thread loop instead of reporting the
+    waker-only result (no ``_handle_select``, select never restarted) ..... caught (C40.lost_event, thread
+    in cond_wait; seeds 1..3, < 1 s; needs ``remove_close`` between publish and select_enter)
   When ``sched`` has found a violation the ``smoke`` part is skipped (with these mutants it would hang
   until its cap and turn the run into exit 2 = inconclusive).
 """
 import asyncio
 import collections
+import errno
 import select as real_select
 import socket
 import threading as real_threading
@@ -73,7 +85,8 @@ PROPERTY = "C40"
 READY = True
 RULE = (
     "Hypothesis: actor program of <=15 ops over 3 virtual fds (add/remove reader/writer, make readable/"
-    "writable, clear, run one loop callback, close; thread started before or during the program) x "
+    "writable, clear, remove+close an fd (scripted select then raises EBADF), run one loop callback, "
+    "close; thread started before or during the program; 1/3 of the programs aimed at the EBADF path) x "
     "generated schedule of <=80 binary choices (then stay-on-thread or always-switch) x "
     "shutdown path (close / atexit hook / asyncgen aclose) x one-shot handlers; the real SelectorThread "
     "code runs on two real threads serialised by a baton scheduler; non-trivial = the schedule switches "
@@ -150,6 +163,9 @@ class Env:
         self.readable = {fd: False for fd in FDS}
         self.writable = {fd: False for fd in FDS}
         self.oneshot = set()
+        self.closed = set()  # virtual fds closed by the actor (after removing them)
+        self.ebadf = 0
+        self.dispatches_after_ebadf = 0
         self.select_depth = 0
         self.max_select_depth = 0
         self.selects = 0
@@ -192,6 +208,15 @@ class Env:
             self.last_change_switches = None
         r, w = list(r), list(w)
         try:
+            # The call starts when the thread is scheduled past this point: like the real select it
+            # fails with EBADF if one of the fds it was handed has been closed by then (the loop thread
+            # may remove + close an fd after publishing the set and before the thread gets here).
+            self.sched.point("select_enter")
+            bad = [fd for fd in r + w if isinstance(fd, int) and fd in self.closed]
+            if bad:
+                self.ebadf += 1
+                self.labels.add("ebadf_raised")
+                raise OSError(errno.EBADF, "Bad file descriptor")
             self.sched.point("select", lambda: timeout == 0 or any(self._poll(r, w)))
             rs, ws = self._poll(r, w)
         finally:
@@ -213,6 +238,8 @@ class Env:
 
     def _dispatched(self, kind, fd):
         self.dispatches.append((kind, fd))
+        if self.ebadf:
+            self.dispatches_after_ebadf += 1
         if not self.sched.is_actor():
             self.problem("C40.callback_off_loop_thread", {"kind": kind, "fd": fd, "thread": self.sched.name_of()})
 
@@ -288,10 +315,23 @@ def run_sched_case(ctx, case):
                     break
                 else:
                     fd = FDS[op[1]]
+                    if kind in ("add_reader", "add_writer") and fd in env.closed:
+                        # the number is reused by a new descriptor
+                        env.closed.discard(fd)
+                        env.readable[fd] = env.writable[fd] = False
+                    if fd in env.closed and kind in ("ready", "writable", "clear"):
+                        continue  # no such descriptor
                     if kind == "add_reader":
                         probe.add_reader(fd, env.on_read, fd)
                     elif kind == "add_writer":
                         probe.add_writer(fd, env.on_write, fd)
+                    elif kind == "remove_close":
+                        # the documented order: unregister, then close (never close a registered fd)
+                        probe.remove_reader(fd)
+                        probe.remove_writer(fd)
+                        env.closed.add(fd)
+                        env.readable[fd] = env.writable[fd] = False
+                        labels.add("remove_close")
                     elif kind == "remove_reader":
                         probe.remove_reader(fd)
                     elif kind == "remove_writer":
@@ -331,6 +371,8 @@ def run_sched_case(ctx, case):
                     labels.add("dispatched_ge2")
                 if env.selects >= 3:
                     labels.add("selects_ge3")
+                if env.dispatches_after_ebadf:
+                    labels.add("dispatched_after_ebadf_recovery")
             # ---- shutdown
             phase = "shutdown"
             state_at_shutdown = selector_state(sched)
@@ -401,7 +443,7 @@ def run_sched_case(ctx, case):
 
     if env.max_select_depth > 1 and not any(c == "C40.concurrent_selects" for c, _ in env.problems):
         env.problem("C40.concurrent_selects", {"depth": env.max_select_depth})
-    if state_at_shutdown == "select":
+    if state_at_shutdown in ("select", "select_enter"):
         labels.add("shutdown_while_in_select")
     elif state_at_shutdown == "cond_wait":
         labels.add("shutdown_while_cond_wait")
@@ -512,10 +554,32 @@ _op = st.one_of(
     st.tuples(st.just("remove_reader"), _fd),
     st.tuples(st.just("remove_writer"), _fd),
     st.tuples(st.just("clear"), _fd),
+    *_w(st.tuples(st.just("remove_close"), _fd), 2),
     st.tuples(st.just("close")),
 )
+
+
+@st.composite
+def _ebadf_program(draw):
+    """Aimed at the EBADF recovery path: fd a gets into a published set, is then removed and closed
+    (possibly before the selector thread has entered select), while another fd b is (or becomes)
+    registered and ready and must still be dispatched."""
+    a = draw(st.sampled_from([0, 1]))
+    b = 2 if draw(st.booleans()) else 1 - a
+    runs = lambda lo, hi: [("run",)] * draw(st.integers(lo, hi))  # noqa: E731
+    head = draw(st.lists(_op, max_size=2)) + [("add_reader", a)] + runs(1, 4)
+    tail = draw(st.permutations([("add_reader", b), ("ready", b)] + runs(0, 2)))
+    if draw(st.booleans()):
+        body = [("remove_close", a)] + list(tail)
+    else:
+        k = draw(st.integers(0, len(tail)))
+        body = list(tail[:k]) + [("remove_close", a)] + list(tail[k:])
+    return head + body + draw(st.lists(_op, max_size=3))
+
+
 sched_case_s = st.fixed_dictionaries({
-    "program": st.lists(_op, min_size=2, max_size=15),
+    "program": st.one_of(st.lists(_op, min_size=2, max_size=15), st.lists(_op, min_size=2, max_size=15).map(list),
+                         _ebadf_program()),
     "start_first": st.booleans(),
     "tail_policy": st.sampled_from(["stay", "switch"]),
     "schedule": st.lists(st.integers(0, 1), max_size=80),
